@@ -93,7 +93,7 @@ _E1_ASSUME = ["HDF5 1.10.8 is trusted", "the observer sees the file only through
 
 PROPS["C02"] = dict(
     level="model_checking",
-    budget_s=dict(quick=300, thorough=1200),
+    budget_s=dict(quick=300, thorough=2400),
     parts=[dict(name="histories", bin="C02", flavour="plain", resume_mode="skip", max_crashes=3)],
     extra_bins=["obsdump"],
     manifest=dict(
